@@ -57,6 +57,15 @@ Section WithSort.
   Proof. intros [] l x; reflexivity. Qed.
 End WithSort.
 
+(* ---------------------------------------------------------------- sequences of searches *)
+Lemma proxy_run_nth : forall sort pre q post st,
+  nth (length pre) (proxy_run sort st (pre ++ q :: post)) (SErr EOther) = search_req sort q.
+Proof.
+  intros sort; induction pre as [|p pre IH]; intros q post st; simpl; auto.
+Qed.
+Lemma proxy_run_map : forall sort qs st, proxy_run sort st qs = map (search_req sort) qs.
+Proof. intros sort; induction qs as [|q qs IH]; intros st; simpl; auto. now rewrite IH. Qed.
+
 (* ---------------------------------------------------------------- any replica order *)
 Definition plain (b : beh) : bool := match b with BOk _ _ | BErr => true | _ => false end.
 Definition is_okb (b : beh) : bool := match b with BOk _ _ => true | _ => false end.
